@@ -764,8 +764,8 @@ class _CalcRuns:
         ps_ = [p_ for p_ in params_of(self.api[q]) if p_ not in ("self", "cls")]
         return {r: bound.get(p_) for r, p_ in zip(_QUERY_ROLES.get(q, ("name", "task", "operation_type", "sample_type", "node_name", "mapper")), ps_)}
 
-    def run(self, func, args, kwargs=None, answer=None):
-        """(kind, value, recorded queries [(query name, roles, call node)])."""
+    def _machine(self, answer):
+        """(machine, receiver standing in for the calculator, list the queries are recorded in)."""
         calls = []
         m = _Machine(methods=self.methods, functions=self.mfuncs, names={"SampleType": self.enum})
 
@@ -778,8 +778,24 @@ class _CalcRuns:
 
         stub = _Stub(calls={q: make(q) for q in self.api if q.startswith("get")})
         recv = Record(**{self.store_attr: stub, "logger": None, "track": Record(meta_data=None), "challenge": Record(meta_data=None, schedule=[])})
+        return m, recv, calls
+
+    def run(self, func, args, kwargs=None, answer=None):
+        """(kind, value, recorded queries [(query name, roles, call node)])."""
+        m, recv, calls = self._machine(answer)
         kind, val = m.run(func, args, kwargs, recv=recv)
         return kind, val, calls
+
+    def eval(self, expr, env, answer=None):
+        """the same for an EXPRESSION of a calculator method (e.g. the argument that feeds a key of the per-task record), evaluated with `self` standing for the calculator and the
+        given values for its other free names."""
+        m, recv, calls = self._machine(answer)
+        try:
+            return "return", m.expr(expr, dict(env, self=recv)), calls
+        except _WouldRaise as x:
+            return "raise", str(x), calls
+        except (TypeError, ValueError, KeyError, AttributeError, IndexError, ZeroDivisionError, RecursionError, OverflowError) as x:
+            raise CannotEval(f"machine: {type(x).__name__}: {x}"[:160])
 
     def standard_answer(self, empty=False, zero=False):
         """answers that encode the request: sample counts differ between a Normal-filtered and any other query, every percentile p is answered with 1000 + p."""
@@ -852,12 +868,21 @@ def _per_task_scope(gm, ao, key_param, call):
     defs = local_defs(f)
     tv = None
     if key_param and key_param.get("task"):
-        t = _il(bind_args(c, ao).get(key_param["task"]), defs)
-        if t is not None and t.endswith(".name") and t[:-len(".name")].isidentifier():
-            tv = t[:-len(".name")]
-            # ... accepted only when X is bound once per task: the variable of an enclosing loop or a parameter of the function
-            per_task = {x.id for lp in source.ancestors(c) if isinstance(lp, (ast.For, ast.comprehension)) for x in ast.walk(lp.target) if isinstance(x, ast.Name)} | set(params_of(f)[1:])
-            tv = tv if tv in per_task else None
+        # follow the argument through the locals that hold it until it reads `X.name` of a plain name X ...
+        e = bind_args(c, ao).get(key_param["task"])
+        for _ in range(8):
+            if isinstance(e, ast.Name) and e.id in defs:
+                e = defs[e.id]
+            else:
+                break
+        if isinstance(e, ast.Attribute) and e.attr == "name" and isinstance(e.value, ast.Name):
+            x = e.value.id
+            # ... accepted only when X is bound once per task: the variable of an enclosing loop, a parameter of the function, or a local assigned inside a loop body
+            per_task = {y.id for lp in source.ancestors(c) if isinstance(lp, (ast.For, ast.comprehension)) for y in ast.walk(lp.target) if isinstance(y, ast.Name)} | set(params_of(f)[1:])
+            in_loop = x in defs and any(isinstance(lp, (ast.For, ast.While)) and lp is not f for lp in source.ancestors(defs[x]))
+            if x in per_task or in_loop:
+                tv = x
+                defs = {k: v for k, v in defs.items() if k != x}  # the task variable stays a variable
     return f, c, defs, tv or _loop_var(c)
 
 
@@ -880,12 +905,12 @@ def _reachable(methods, f):
     return seen
 
 
-def _selector_and_encoder(met, mfuncs, methods, pct_method, runs):
+def _selector_and_encoder(met, mfuncs, methods, pct_method, run0):
     """(percentile selector, percentile key encoder) BY ROLE, decided on values: among the one-parameter module-level functions the percentile method (with the helpers it calls)
     uses, the selector is the one whose result for some sample count is the percentile list that reached the store's percentile query in the recorded run, the encoder the one that
     maps each of those percentiles to a key of the method's result. Either is None when no function or more than one qualifies (the caller then takes the conventional name)."""
-    asked = [list(r.get("percentiles")) for q, r, _n in runs[0][2] if q == "get_percentiles" and isinstance(r.get("percentiles"), (list, tuple))]
-    result = runs[0][1] if runs[0][0] == "return" and isinstance(runs[0][1], dict) else None
+    asked = [list(r.get("percentiles")) for q, r, _n in run0[2] if q == "get_percentiles" and isinstance(r.get("percentiles"), (list, tuple))]
+    result = run0[1] if run0[0] == "return" and isinstance(run0[1], dict) else None
     cands = []
     for g in _reachable(methods, pct_method):
         for c in source.calls_in(g):
@@ -1048,9 +1073,12 @@ def run(chk):
     chk.use(met, "docs/summary_report.rst", "docs/metrics.rst")
     chk.explanation = (
         "Decides result assembly mostly ON VALUES: a small abstract machine (rules/C08.py: _Machine) walks the AST of the anchored methods and runs them on representative inputs (no "
-        "repository code is imported or called), so helper extraction, hoisted locals, guard clauses, comprehension / loop / table forms are the same computation. The per-task methods of "
-        "the results calculator run against a stand-in store that records every query bound to the MetricsStore API: each request-metric query passes the Normal sample type, the task and "
-        "the operation type, and the percentile set requested is the one the NORMAL sample count selects; the percentile selector run on 15 boundary counts is a total, monotone function "
+        "repository code is imported or called), so helper extraction, hoisted locals, guard clauses, comprehension / loop / table forms are the same computation. WHAT computes each key "
+        "of the per-task record is taken by role, not by name: add_op_metrics run with markers maps record key -> parameter, the argument bound to it at the calculator's call (in the main "
+        "routine or a helper extracted from its loop; locals replaced by their definitions) is the key's feed, and each feed is evaluated for a representative task against a stand-in "
+        "store that records every query bound to the MetricsStore API: each request-metric query passes the Normal sample type, the task and the operation type, asks for the metric of "
+        "the key's name and for the statistic the key stands for, and the percentile set requested is the one the NORMAL sample count selects (selector, key encoder and the in-memory "
+        "percentile function are likewise located by the values that flow through them); the percentile selector run on 15 boundary counts is a total, monotone function "
         "of the count only (ends with 100, contains 50 for counts > 1), the key encoder is injective over the percentile table; the in-memory store's get_error_rate / get_stats / "
         "get_percentiles / get_mean / get_median run on representative records (all combinations of metric / task / operation type / sample type, a 0.0 among the values) equal failed/all, "
         "count/min/max/mean, the documented linear interpolation (also proven as a formula identity where the shape is recognised) and the 50th percentile of exactly the records the request "
@@ -1079,11 +1107,19 @@ def run(chk):
     call = gm.get("__call__")
     if call is None:
         raise AnchorMissing("GlobalStatsCalculator.__call__")
-    T_, OT_ = "task-T", "optype-OT"
-    # by role: WHICH calculator methods compute the per-task statistics is read off the data flow into the per-task record (add_op_metrics is run with markers: record key -> parameter;
-    # the argument bound to that parameter at the calculator's call, followed through the locals that hold it, is the result of self.<method>(...)): the method feeding `throughput`
-    # is the summary method, those feeding `latency` / `service_time` / `processing_time` the percentile method(s), the one feeding `error_rate` the error-rate method - whatever they
-    # are called. Only where that data flow cannot be read the methods of the conventional names are taken; keys of findings carry the ROLE label, the texts the actual name.
+    T_, OT_, T2_, OT2_ = "task-T", "optype-OT", "task-U", "optype-OU"
+
+    def task_rec(n, t):
+        """a representative task of the schedule as the calculator reads it."""
+        return Record(name=n, operation=Record(type=t, name="op-of-" + n, meta_data=None, include_in_reporting=True), meta_data=None)
+
+    # by role AND on values: WHAT computes the per-task statistics is read off the data flow into the per-task record. add_op_metrics is run with markers (record key -> parameter);
+    # the argument bound to that parameter at the calculator's call, with the locals that hold it replaced by their definitions, is the FEED of the key: an expression over `self` and
+    # the task at hand (self.<method>(task.name, ...), whatever the method is called, whatever it is passed - names, the task object -, or a store query written in place). Each feed
+    # is EVALUATED (machine) for a representative task against the stand-in store that records every query bound to the MetricsStore API; what matters is what REACHES the store
+    # (metric, sample type, task, operation type). The feed of `throughput` has the summary role, those of `latency` / `service_time` / `processing_time` the percentile role, that of
+    # `error_rate` the error-rate role; keys of findings carry the ROLE label, the texts the actual method name. Only where a feed cannot be read / evaluated the method of the
+    # conventional name is run with arguments derived from the roles of its parameters at its call sites.
     ginit, ao = gsm.get("__init__"), gsm.get("add_op_metrics")
     if ginit is None or ao is None or len(params_of(ginit)) != 2:
         raise AnchorMissing("GlobalStats.__init__(self, d) / GlobalStats.add_op_metrics")
@@ -1095,24 +1131,13 @@ def run(chk):
     feeds = {}
     if aoc0 is not None and oprec[0] == "ok":
         b0 = bind_args(aoc0, ao)
-        feeds = {k: source.inline_node(b0[oprec[1][k]], cdefs) for k in OP_FEEDS if oprec[1].get(k) is not None and b0.get(oprec[1][k]) is not None}
-    role_methods = {}  # role label -> [method def, ...] (by data flow; the conventional name where the data flow is not readable)
-    for k, (label, _q, _metric) in OP_FEEDS.items():
-        f_ = _feeding_method(feeds[k], gm) if k in feeds else None
-        if f_ is not None and f_ not in role_methods.setdefault(label, []):
-            role_methods[label].append(f_)
-    for label in ("summary_stats", "single_latency", "error_rate"):
-        if not role_methods.get(label):
-            if gm.get(label) is None:
-                raise AnchorMissing(f"GlobalStatsCalculator.{label} (no calculator method feeds the per-task record key(s) of that role, and no method of that name)")
-            role_methods[label] = [gm[label]]
-    label_of = {}
-    for label, fs in role_methods.items():
-        for f_ in fs:
-            label_of.setdefault(f_.name, label if f_ is fs[0] else f"{label}[{f_.name}]")
+        feeds = {k: source.inline_node(b0[oprec[1][k]], cdefs) for k in OP_KEYS if oprec[1].get(k) is not None and b0.get(oprec[1][k]) is not None}
+    # a call that spreads its arguments (*args / **kwargs) does not show which argument reaches which parameter
+    opaque_call = aoc0 is not None and (any(isinstance(a_, ast.Starred) for a_ in aoc0.args) or any(k_.arg is None for k_ in aoc0.keywords))
+    located = lambda n_: n_ if getattr(n_, "_module", None) is not None else (aoc0 if aoc0 is not None else ptf)  # a node of an inlined feed has no position of its own
 
-    def run_per_task(f, metric):
-        """(kwargs, [run with samples, run without samples]) for one per-task method run against the stand-in store | a message why it cannot be (not recognised)."""
+    def per_task_kwargs(f, metric, need_operation_type=True):
+        """arguments for one per-task method by the roles of its parameters (what its call sites pass) | a message why they are not derivable."""
         proles = _param_roles(ptf, f, cdefs, tv)
         dflt = set(params_of(f)[len(params_of(f)) - len(f.args.defaults):]) if f.args.defaults else set()
         kwargs, unresolved = {}, []
@@ -1122,37 +1147,79 @@ def run(chk):
                 kwargs[p_] = {"task": T_, "operation_type": OT_, "metric": metric or "service_time"}[r]
             elif p_ not in dflt:
                 unresolved.append(p_)
-        if unresolved or "task" not in proles.values():
+        if unresolved or "task" not in proles.values() or (need_operation_type and "operation_type" not in proles.values()):
             return f"{f.name}: which parameter takes the task name / the operation type is not derivable from the calls in {ptf.name} (parameters {unresolved or params_of(f)[1:]})"
-        try:
-            return kwargs, [calc.run(f, [], kwargs, answer=calc.standard_answer()), calc.run(f, [], kwargs, answer=calc.standard_answer(empty=True))]
-        except (CannotEval, _Unsup) as x:
-            return f"{f.name} is not evaluable against the stand-in store: {x}"
+        return kwargs
 
-    recorded, attempted = {}, set()  # role label -> (method, kwargs, runs)
-    for label, f, metric in [(label_of[f_.name], f_, m_) for role, m_ in (("summary_stats", "throughput"), ("single_latency", "service_time"), ("error_rate", None)) for f_ in role_methods[role]]:
-        mname = f.name
-        if label in recorded or label in attempted:
-            continue  # one method feeding record keys of two roles is run once (what it feeds is O8.3's business)
-        attempted.add(label)
-        res = run_per_task(f, metric)
-        if not isinstance(res, str) and "operation_type" not in _param_roles(ptf, f, cdefs, tv).values():
-            res = f"{mname}: which parameter takes the operation type is not derivable from the calls in {ptf.name} (parameters {params_of(f)[1:]})"
-        if isinstance(res, str):
-            chk.unknown("O8.1", res, f)
+    def evaluate(g):
+        """runs every feed of the group with and without samples; a shape the machine does not interpret is recorded as the group's `error` (not recognised)."""
+        try:
+            g["std"] = {k: r_(calc.standard_answer()) for k, r_ in g["runners"].items()}
+            g["empty"] = {k: r_(calc.standard_answer(empty=True)) for k, r_ in g["runners"].items()}
+        except (CannotEval, _Unsup) as x:
+            g.pop("std", None)
+            g["error"] = f"{g['name']} is not evaluable against the stand-in store: {x}"
+        return g
+
+    def by_name_group(role, metric):
+        """the method of the conventional name, run with arguments by parameter role."""
+        f_ = gm.get(role)
+        if f_ is None:
+            return None
+        g = {"id": (role, f_.name), "role": role, "f": f_, "name": f_.name, "label": role, "runners": {}}
+        kw = per_task_kwargs(f_, metric)
+        if isinstance(kw, str):
+            g["error"] = kw
+            return g
+        g["runners"][metric or role] = lambda answer, alt=False, f_=f_, kw=kw: calc.run(f_, [], {p_: ({T_: T2_, OT_: OT2_}.get(v, v) if alt and isinstance(v, str) else v) for p_, v in kw.items()}, answer=answer)
+        return evaluate(g)
+
+    groups, by_key = [], {}
+    for k, (role, _q, _metric) in OP_FEEDS.items():
+        if k not in feeds or tv is None:
             continue
-        kwargs, runs = res
-        if runs[0][0] == "raise":
-            chk.unknown("O8.1", f"{mname} raises against the stand-in store: {runs[0][1]}", f)
+        f_ = _feeding_method(feeds[k], gm)
+        gid = (role, f_.name if f_ is not None else None)
+        g = next((g_ for g_ in groups if g_["id"] == gid), None)
+        if g is None:
+            first = not any(g_["role"] == role for g_ in groups)
+            g = {"id": gid, "role": role, "f": f_, "name": f_.name if f_ is not None else f"{ptf.name} (the value stored under '{k}')", "label": role if first else f"{role}[{gid[1] or k}]", "runners": {}}
+            groups.append(g)
+        g["runners"][k] = lambda answer, alt=False, e=feeds[k]: calc.eval(e, {tv: task_rec(T2_, OT2_) if alt else task_rec(T_, OT_)}, answer)
+        by_key[k] = g
+    for g in groups:
+        evaluate(g)
+    for role, metric in (("summary_stats", "throughput"), ("single_latency", "service_time"), ("error_rate", None)):
+        mine = [g for g in groups if g["role"] == role]
+        if not any("std" in g for g in mine):
+            g = by_name_group(role, metric)
+            if g is None and not mine:
+                raise AnchorMissing(f"GlobalStatsCalculator.{role} (nothing readable feeds the per-task record key(s) of that role, and there is no method of that name)")
+            if g is not None and ("std" in g or not mine):
+                groups = [g_ for g_ in groups if g_["role"] != role] + [g]  # (the keys of the unreadable feeds stay 'not recognised' in O8.3)
+    label_of = {}
+    for g in groups:
+        if g["f"] is not None:
+            label_of.setdefault(g["f"].name, g["label"])
+    role_groups = lambda role: [g for g in groups if g["role"] == role]
+
+    for g in [g_ for role in ("summary_stats", "single_latency", "error_rate") for g_ in role_groups(role)]:
+        mname, label, gsite = g["name"], g["label"], g["f"] if g["f"] is not None else located(None)
+        if "error" in g:
+            chk.unknown("O8.1", g["error"], gsite)
             continue
-        recorded[label] = (f, kwargs, runs)
+        raising = [r_ for r_ in g["std"].values() if r_[0] == "raise"]
+        if raising:
+            chk.unknown("O8.1", f"{mname} raises against the stand-in store: {raising[0][1]}", gsite)
+            g["error"] = f"{mname} raises against the stand-in store: {raising[0][1]}"
+            continue
         seen_q = {}
-        for kind, val, calls in runs:
+        for kind, val, calls in list(g["std"].values()) + list(g["empty"].values()):
             for q, r, node in calls:
                 if q in REQUEST_QUERIES:
-                    seen_q.setdefault(q, []).append((r, node))
+                    seen_q.setdefault(q, []).append((r, located(node)))
         if not seen_q:
-            chk.unknown("O8.1", f"{mname}: no request-metric query reaches the store", f)
+            chk.unknown("O8.1", f"{mname}: no request-metric query reaches the store", gsite)
         for q, lst in seen_q.items():
             bad = [(r, n_) for r, n_ in lst if r.get("sample_type") is not calc.normal]
             st_txt = lambda v: "not passed / None (all sample types)" if v is None else f"SampleType.{v.fields['name']}" if isinstance(v, _Member) else repr(v)
@@ -1166,52 +1233,56 @@ def run(chk):
     # by role: the percentile selector / the percentile key encoder are the module-level functions whose values reach the store's percentile query / the keys of the per-task
     # percentile record (decided on the recorded run); the functions of the conventional names only where that is not readable
     ps = enc = None
-    for f_ in role_methods["single_latency"]:
-        if label_of[f_.name] in recorded and (ps is None or enc is None):
-            ps_r, enc_r = _selector_and_encoder(met, mfuncs, calc.methods, f_, recorded[label_of[f_.name]][2])
+    pct_groups = [g for g in role_groups("single_latency") if "std" in g and "error" not in g]
+    for g in pct_groups:
+        if ps is None or enc is None:
+            ps_r, enc_r = _selector_and_encoder(met, mfuncs, calc.methods, g["f"] if g["f"] is not None else ptf, list(g["std"].values())[0])
             ps, enc = ps or ps_r, enc or enc_r
     ps = ps or met.func("percentiles_for_sample_size")
     enc = enc or met.func("encode_float_key")
     sel = None
-    if any(label_of[f_.name] in recorded for f_ in role_methods["single_latency"]):
+    if pct_groups:
         try:
             sel = {n_: _Machine(functions=mfuncs, names=_selector_reads(met, ps, mfuncs)[0]).run(ps, [n_]) for n_ in (_NORMAL_COUNT, _OTHER_COUNT)}
         except (CannotEval, _Unsup) as x:
-            chk.unknown("O8.1", f"percentile selector not evaluable: {x}", role_methods["single_latency"][0])
-    for sl in role_methods["single_latency"] if sel is not None else []:
-        label = label_of[sl.name]
-        if label not in recorded:
-            continue
-        _f, kwargs, runs = recorded[label]
-        asked = [(r.get("percentiles"), n_) for q, r, n_ in runs[0][2] if q == "get_percentiles"]
+            chk.unknown("O8.1", f"percentile selector not evaluable: {x}", ps)
+    for g in pct_groups if sel is not None else []:
+        gsite = g["f"] if g["f"] is not None else located(None)
+        asked = [(r.get("percentiles"), located(n_)) for run_ in g["std"].values() for q, r, n_ in run_[2] if q == "get_percentiles"]
         if not asked or sel[_NORMAL_COUNT][0] != "return":
-            chk.unknown("O8.1", f"{sl.name}: no percentile query reaches the store for a task with normal samples (the percentile set cannot be compared)", sl)
+            chk.unknown("O8.1", f"{g['name']}: no percentile query reaches the store for a task with normal samples (the percentile set cannot be compared)", gsite)
         else:
             want = list(sel[_NORMAL_COUNT][1])
             bad = [(pl, n_) for pl, n_ in asked if pl is None or list(pl) != want]
-            ok = not bad and runs[1][0] == "return"
+            no_samples = [r_ for r_ in g["empty"].values() if r_[0] != "return"]
+            ok = not bad and not no_samples
             detail = f"{_NORMAL_COUNT} normal samples (of {_OTHER_COUNT} samples of all types): percentiles requested {list(asked[0][0]) if asked[0][0] is not None else None}"
             if bad:
                 detail = (f"the store reports {_NORMAL_COUNT} normal samples and {_OTHER_COUNT} samples of all types: requested {list(bad[0][0]) if bad[0][0] is not None else 'the default set'}, "
                           f"the normal count selects {want}")
-            elif runs[1][0] != "return":
-                detail = f"a task without normal samples: {runs[1][1]}"
-            chk.ob("O8.1", "percentile set selected by the NORMAL sample count", ok, (bad or asked)[0][1], detail, key=f"{_M}:GlobalStatsCalculator.{label}:percentile-set")
-    er = role_methods["error_rate"][0]
-    erc = [c for c in source.calls_in(ptf) if isinstance(c.func, ast.Attribute) and is_self_attr(c.func, er.name)]
-    if not erc or (tv or _loop_var(erc[0])) is None:
-        chk.unknown("O8.1", f"the call of self.{er.name}(...) for the task of the per-task record is not located in {ptf.name}", ptf)
+            elif no_samples:
+                detail = f"a task without normal samples: {no_samples[0][1]}"
+            chk.ob("O8.1", "percentile set selected by the NORMAL sample count", ok, (bad or asked)[0][1], detail, key=f"{_M}:GlobalStatsCalculator.{g['label']}:percentile-set")
+    # the error rate is requested for the task AT HAND, decided on values: evaluated for a second task the query follows that task's name and operation type
+    eg = [g for g in role_groups("error_rate") if "std" in g and "error" not in g]
+    if not eg:
+        chk.unknown("O8.1", "how the error rate of the per-task record is computed is not evaluable (see above): whether it is requested for the task at hand is not decided", ptf)
     else:
-        # by role: both arguments (followed through the locals that hold them) are read off the task whose record is stored (the task variable of the per-task scope)
-        lv = tv or _loop_var(erc[0])
-        ep = params_of(er)[1:]
-        eb = bind_args(erc[0], er)
-        got = [_il(eb.get(p_), cdefs) for p_ in ep]
-        # (which parameter is forwarded as the store's task / operation-type filter is decided by the run of the error-rate method above: its `filters` obligation)
-        # (a further parameter - with a default, or passed something that is not read off the task - is not this obligation's business: the run above decides what reaches the store)
-        ok = got.count(f"{lv}.name") == 1 and got.count(f"{lv}.operation.type") == 1 and {"operation_type", "task"} <= set(_param_roles(ptf, er, cdefs, tv).values())
-        chk.ob("O8.1", "error rate requested for (task name, operation type)", ok, erc[0], f"{er.name}({', '.join(str(g) for g in got)}) for the task `{lv}`",
-               key=f"{_M}:GlobalStatsCalculator.__call__:error_rate-arguments")
+        g = eg[0]
+        erc = [c for c in source.calls_in(ptf) if g["f"] is not None and isinstance(c.func, ast.Attribute) and is_self_attr(c.func, g["f"].name)]
+        try:
+            alt = [r_(calc.standard_answer(), True) for r_ in g["runners"].values()]
+            qs = [r for _k, _v, calls in alt for q, r, _n in calls if q == "get_error_rate"]
+            if not qs:
+                chk.unknown("O8.1", f"{g['name']}: no error-rate query reaches the store for a second task", erc[0] if erc else located(None))
+            else:
+                bad = [r for r in qs if r.get("task") != T2_ or r.get("operation_type") != OT2_]
+                txt = short(feeds["error_rate"], 90) if "error_rate" in feeds else f"self.{g['name']}(...)"
+                chk.ob("O8.1", "error rate requested for (task name, operation type)", not bad, erc[0] if erc else located(None),
+                       f"{txt}: for a task named {T2_!r} of operation type {OT2_!r} the store is asked for task={(bad or qs)[0].get('task')!r}, operation_type={(bad or qs)[0].get('operation_type')!r}",
+                       key=f"{_M}:GlobalStatsCalculator.__call__:error_rate-arguments")
+        except (CannotEval, _Unsup) as x:
+            chk.unknown("O8.1", f"{g['name']} is not evaluable for a second task: {x}", erc[0] if erc else located(None))
 
     # ---- O8.2 percentile selector ------------------------------------------------------------------------------------------------------------------
     chk.rule("O8.2", "the percentile set is a function of the count only: total over [1, inf) (15 boundary counts), every list ends with 100 and contains 50 for counts > 1, sets grow monotonically; count < 1 raises", 17,
@@ -1341,53 +1412,44 @@ def run(chk):
     elif aoc0 is None or lv is None or not key_param:
         chk.unknown("O8.3", "the call <results>.add_op_metrics(...) for the task at hand is not located in the calculator (or the record keys could not be mapped to parameters)", call)
     else:
-        b = bind_args(aoc0, ao)
-        # by data flow: record key -> parameter (run above) -> argument at the call (followed through the locals that hold it) -> the calculator method that computed it (whatever it is
-        # called) and the metric / task / operation type it was computed for (parameter roles of those methods as derived for O8.1). What KIND of statistic that method computes is decided
-        # on values: run against the stand-in store it must ask for the statistic the key stands for (percentiles for the three time keys, the error rate, ...)
-        arg = {k: (source.inline_node(b[key_param[k]], cdefs) if b.get(key_param[k]) is not None else None) for k in OP_KEYS}
-
-        def computed_for(e, f_):
-            """{role: text} for an argument that is the result of self.<f_>(...)."""
-            pr = _param_roles(ptf, f_, cdefs, tv)
-            ba = bind_args(e, f_)
-            dflt = dict(zip(params_of(f_)[len(params_of(f_)) - len(f_.args.defaults):], f_.args.defaults)) if f_.args.defaults else {}
-            out = {}
-            for p_, r in pr.items():
-                v = ba.get(p_, dflt.get(p_))
-                out[r] = v.value if isinstance(v, ast.Constant) else (u(v) if v is not None else None)
-            return out
-
+        # by data flow and on values: record key -> parameter (run above) -> argument at the call, followed through the locals that hold it (the FEED of the key, see O8.1) -> evaluated
+        # for a representative task against the stand-in store: the feed must ask the store for the statistic the key stands for (percentiles for the three time keys, the error rate,
+        # ...), of the metric of the key's name, for the task at hand and its operation type - whatever the computing method is called and however it is passed its arguments
         problems, unrecognised = [], []
-        for k, (label, kind_queries, metric) in OP_FEEDS.items():
-            f_ = _feeding_method(arg[k], gm) if arg[k] is not None else None
-            if f_ is None:
-                if arg[k] is None or isinstance(arg[k], (ast.Constant, ast.Dict, ast.List, ast.Tuple)):
-                    problems.append(f"'{k}' <- {short(arg[k], 60) if arg[k] is not None else 'nothing'} (expected the result of a calculator method asking the store for {' / '.join(kind_queries)})")
-                else:
-                    unrecognised.append(f"'{k}' <- {short(arg[k], 60)}: not the result of one calculator method")
+        for k, (role, kind_queries, metric) in OP_FEEDS.items():
+            e, g = feeds.get(k), by_key.get(k)
+            if e is None:
+                (unrecognised if opaque_call else problems).append(f"'{k}' <- nothing" + (" visible (the call spreads its arguments)" if opaque_call else f" (expected a value computed from the store's {' / '.join(kind_queries)})"))
                 continue
-            ro = computed_for(arg[k], f_)
-            # the statistic this method asks the store for (its run for O8.1 where there is one)
-            res = recorded.get(label_of.get(f_.name))
-            res = (res[1], res[2]) if res is not None else run_per_task(f_, metric)
-            if isinstance(res, str) or res[1][0][0] == "raise":
-                unrecognised.append(f"'{k}' <- self.{f_.name}(...): " + (res if isinstance(res, str) else f"raises against the stand-in store: {res[1][0][1]}"))
+            if not any(isinstance(x, (ast.Call, ast.Name, ast.Attribute)) for x in ast.walk(e)):
+                problems.append(f"'{k}' <- the literal {short(e, 60)} (expected a value computed from the store's {' / '.join(kind_queries)})")
                 continue
-            asked = sorted({q for _k, _v, calls_ in res[1] for q, _r, _n in calls_})
-            if not set(asked) & set(kind_queries):
-                problems.append(f"'{k}' <- self.{f_.name}(...), which asks the store for {asked or 'nothing'} and never for {' / '.join(kind_queries)}")
-            elif metric is not None and "metric" not in ro:
-                # the method takes no metric name (one method per metric): decided on values - the metric its queries of that kind name
-                names = sorted({str(r_.get("name")) for _k, _v, calls_ in res[1] for q, r_, _n in calls_ if q in kind_queries})
-                if names != [metric]:
-                    problems.append(f"'{k}' <- self.{f_.name}(...), which asks the store for metric(s) {names}")
-            elif metric is not None and ro.get("metric") != metric:
-                problems.append(f"'{k}' <- self.{f_.name} for metric {ro.get('metric')!r}")
-            elif ro.get("task") != f"{lv}.name" or (label != "duration" and ro.get("operation_type") != f"{lv}.operation.type"):
-                problems.append(f"'{k}' <- self.{f_.name} for task {ro.get('task')} / operation type {ro.get('operation_type')}")
-        if _il(b.get(key_param["task"]), cdefs) != f"{lv}.name" or _il(b.get(key_param["operation"]), cdefs) != f"{lv}.operation.name":
-            problems.append(f"'task' <- {_il(b.get(key_param['task']), cdefs)}, 'operation' <- {_il(b.get(key_param['operation']), cdefs)} for the task `{lv}`")
+            if g is None or "std" not in g or k not in g["std"] or g["std"][k][0] == "raise":
+                why_ = (g or {}).get("error") or (f"raises against the stand-in store: {g['std'][k][1]}" if g is not None and "std" in g and k in g["std"] else "not evaluable")
+                unrecognised.append(f"'{k}' <- {short(e, 60)}: {why_}")
+                continue
+            qs = [(q, r_) for run_ in (g["std"][k], g["empty"][k]) for q, r_, _n in run_[2]]
+            kq = [(q, r_) for q, r_ in qs if q in kind_queries]
+            names = sorted({str(r_.get("name")) for _q, r_ in kq})
+            off_task = [(q, r_) for q, r_ in kq if r_.get("task") != T_ or (role != "duration" and r_.get("operation_type") != OT_)]
+            if not kq:
+                problems.append(f"'{k}' <- {short(e, 60)}, which asks the store for {sorted({q for q, _r in qs}) or 'nothing'} and never for {' / '.join(kind_queries)}")
+            elif metric is not None and names != [metric]:
+                problems.append(f"'{k}' <- {short(e, 50)} for metric {names[0] if len(names) == 1 else names!r}")
+            elif off_task:
+                problems.append(f"'{k}' <- {short(e, 50)} for task {off_task[0][1].get('task')!r} / operation type {off_task[0][1].get('operation_type')!r} (the task at hand: {T_!r} / {OT_!r})")
+        for k, want in (("task", T_), ("operation", "op-of-" + T_)):
+            e = feeds.get(k)
+            if e is None:
+                (unrecognised if opaque_call else problems).append(f"'{k}' <- nothing")
+                continue
+            try:
+                kind, val, _calls = calc.eval(e, {lv: task_rec(T_, OT_)}, calc.standard_answer())
+            except (CannotEval, _Unsup) as x:
+                unrecognised.append(f"'{k}' <- {short(e, 60)}: {x}")
+                continue
+            if kind != "return" or val != want:
+                problems.append(f"'{k}' <- {short(e, 60)} (for the task at hand: {val!r}, expected its {'name' if k == 'task' else 'operation name'})")
         if problems or not unrecognised:
             chk.ob("O8.3", "each op-metrics field is computed for the metric of the same name", not problems, aoc0, "; ".join(problems)[:300], key=f"{_M}:GlobalStatsCalculator.__call__:op-metrics-fields")
         else:
@@ -1819,26 +1881,33 @@ def run(chk):
         chk.unknown("O8.8", f"get_mean / get_median are not evaluable end to end on the representative records: {undecided}", gme)
     else:
         chk.ob("O8.8", "mean / median of the in-memory store == mean / median of the selected raw values (end to end)", ok, gmd, detail, key=f"{_M}:InMemoryMetricsStore:mean-median:values")
-    ss = role_methods["summary_stats"][0]
-    # decided on values: summary_stats is RUN against the stand-in store, whose answers differ per query and per metric asked for; the summary must carry, under each name, the
-    # statistic of that meaning of the REQUESTED metric (queries for another metric are answered with decoys)
-    sroles = _param_roles(ptf, ss, cdefs, tv)
-    skw = {p_: {"task": T_, "operation_type": OT_, "metric": "throughput"}[r] for p_, r in sroles.items() if r in ("task", "operation_type", "metric")}
-    s_dflt = set(params_of(ss)[len(params_of(ss)) - len(ss.args.defaults):]) if ss.args.defaults else set()
-    if sorted(r for r in sroles.values() if r != "?") != ["metric", "operation_type", "task"] or any(p_ not in skw and p_ not in s_dflt for p_ in params_of(ss)[1:]):
-        chk.unknown("O8.8", f"{ss.name}: which parameter takes the metric name / task name / operation type is not derivable from the call in {ptf.name}", ss)
+    # decided on values: the FEED of the record's `throughput` key (the summary method called for the task at hand, see O8.1) is evaluated against the stand-in store, whose answers
+    # differ per query and per metric asked for; the summary must carry, under each name, the statistic of that meaning of the REQUESTED metric (queries for another metric are
+    # answered with decoys)
+    sg = ([g for g in role_groups("summary_stats") if "std" in g and "error" not in g] or [None])[0]
+    ss = sg["f"] if sg is not None and sg["f"] is not None else (role_groups("summary_stats")[0]["f"] or ptf)
+    if sg is None:
+        chk.unknown("O8.8", f"{ss.name}: the summary of the per-task record is not evaluable against the stand-in store ({role_groups('summary_stats')[0].get('error', '')})"[:300], ss)
     else:
+        s_run = list(sg["runners"].values())[0]
+
         def summary_answer(q, r):
             right = r.get("name") == "throughput"
             if q == "get_stats":
                 return {"count": 12, "min": 1.0, "max": 9.0, "avg": 4.0, "sum": 48.0} if right else {"count": 5, "min": -1.0, "max": -9.0, "avg": -4.0, "sum": -20.0}
             if q in ("get_mean", "get_median", "get_unit"):
                 return {"get_mean": 4.0, "get_median": 3.0, "get_unit": "ops/s"}[q] if right else {"get_mean": -4.0, "get_median": -3.0, "get_unit": "??"}[q]
+            if q == "get_percentiles":
+                # consistent with the median above (the median IS the 50th percentile: a summary that asks for it that way computes the same)
+                try:
+                    return {p_: ((3.0 if float(p_) == 50 else 3.0 + float(p_) / 100) if right else -3.0) for p_ in (r.get("percentiles") if r.get("percentiles") is not None else [99, 99.9, 100])}
+                except (TypeError, ValueError):
+                    raise CannotEval(f"percentiles requested: {r.get('percentiles')!r}")
             return calc.standard_answer()(q, r)
 
         try:
-            kind, got, calls = calc.run(ss, [], skw, answer=summary_answer)
-            kind2, got2, calls2 = calc.run(ss, [], skw, answer=lambda q, r: summary_answer(q, dict(r, name="throughput")))
+            kind, got, calls = s_run(summary_answer)
+            kind2, got2, calls2 = s_run(lambda q, r: summary_answer(q, dict(r, name="throughput")))
         except (CannotEval, _Unsup) as x:
             kind = None
             chk.unknown("O8.8", f"{ss.name} is not evaluable against the stand-in store: {x}", ss)
@@ -1848,7 +1917,7 @@ def run(chk):
             ok = kind2 == "return" and isinstance(got2, dict) and all(k in got2 and _close(got2[k], w) for k, w in want.items())
             chk.ob("O8.8", "summary copies min/mean/median/max from the statistics of the same meaning", ok, ss,
                    "" if ok else f"store answers min 1.0, mean 4.0, median 3.0, max 9.0, unit 'ops/s' -> {kind2} {got2!r}"[:260], key=f"{_M}:GlobalStatsCalculator.summary_stats:copies")
-            stat_q = [(q, r, n_) for q, r, n_ in calls if q in ("get_stats", "get_mean", "get_median")]
+            stat_q = [(q, r, located(n_)) for q, r, n_ in calls if q in ("get_stats", "get_mean", "get_median", "get_percentiles")]
             if {q for q, _, _ in stat_q} >= {"get_stats", "get_mean", "get_median"} or (kind == "return" and isinstance(got, dict) and all(k in got and _close(got[k], w) for k, w in want.items())):
                 bad = [(q, r, n_) for q, r, n_ in stat_q if r.get("name") != "throughput"]
                 ok = not bad and kind == "return" and isinstance(got, dict) and all(k in got and _close(got[k], w) for k, w in want.items())
@@ -1865,27 +1934,31 @@ def run(chk):
     # decided on values for the per-task methods: the method is RUN against the stand-in store with ONE optional statistic answered 0.0 (all others positive); the 0.0 must arrive in
     # the result under that statistic's name, whatever tests it passed on the way (the finding is keyed by the ROLE of the statistic: get_mean -> mean)
     decided = set()
-    for label in [label_of[f_.name] for role in ("summary_stats", "single_latency") for f_ in role_methods[role]]:
-        if label not in recorded:
+    for g in [g_ for role in ("summary_stats", "single_latency") for g_ in role_groups(role)]:
+        if "std" not in g or "error" in g:
             continue
-        f, kwargs, _runs = recorded[label]
-        mname = f.name
+        mname, label = g["name"], g["label"]
         try:
             verdicts = []
             for role, q in (("mean", "get_mean"), ("median", "get_median")):
                 base = calc.standard_answer()
-                kind, got, calls_ = calc.run(f, [], kwargs, answer=lambda q_, r, q=q, base=base: 0.0 if q_ == q else base(q_, r))
-                if q not in {c_[0] for c_ in calls_}:
-                    continue  # this method does not ask for that statistic
-                if kind != "return" or not isinstance(got, dict):
-                    raise CannotEval(f"{mname} with {q} answered 0.0 -> {kind} {got!r}"[:160])
-                verdicts.append((role, got.get(role) is not None and _close(got.get(role), 0.0), got))
+                outcomes = []
+                for s_run_ in g["runners"].values():  # every feed of the role (e.g. the percentile method for each of the three time metrics)
+                    kind, got, calls_ = s_run_(lambda q_, r, q=q, base=base: 0.0 if q_ == q else base(q_, r))
+                    if q not in {c_[0] for c_ in calls_}:
+                        continue  # this method does not ask for that statistic
+                    if kind != "return" or not isinstance(got, dict):
+                        raise CannotEval(f"{mname} with {q} answered 0.0 -> {kind} {got!r}"[:160])
+                    outcomes.append((got.get(role) is not None and _close(got.get(role), 0.0), got))
+                if outcomes:
+                    verdicts.append((role, all(o_[0] for o_ in outcomes), ([o_ for o_ in outcomes if not o_[0]] or outcomes)[0][1]))
         except (CannotEval, _Unsup):
             continue  # not evaluable: the structural scan below covers the method
-        decided.add(mname)
+        if g["f"] is not None:
+            decided.add(g["f"].name)
         for role, ok, got in verdicts:
             found += 1
-            chk.ob("O8.9", f"{mname}: a {role} of 0 is reported as 0 (the optional statistic `{role}` is not tested by truthiness)", ok, f,
+            chk.ob("O8.9", f"{mname}: a {role} of 0 is reported as 0 (the optional statistic `{role}` is not tested by truthiness)", ok, g["f"] if g["f"] is not None else located(None),
                    "" if ok else f"the store answers {role} = 0.0 (every other statistic positive) and the summary carries {role} = {got.get(role)!r}: a value of 0 is treated as missing",
                    key=f"{_M}:GlobalStatsCalculator.{label}:truthiness:{role}")
     for mname, f in gm.items():
@@ -1959,6 +2032,14 @@ _TASK_HELPER = ("    def _add_task_metrics(self, result, task):\n        t = tas
                 "        result.add_op_metrics(\n            t,\n            task.operation.name,\n            self.summary_stats(\"throughput\", t, op_type),\n            self.single_latency(t, op_type),\n"
                 "            self.single_latency(t, op_type, metric_name=\"service_time\"),\n            self.single_latency(t, op_type, metric_name=\"processing_time\"),\n            error_rate,\n"
                 "            self.duration(t),\n            self.merge(self.track.meta_data, self.challenge.meta_data, task.operation.meta_data, task.meta_data),\n        )\n\n")
+
+_THREE_CALLS = ("                        self.single_latency(t, op_type),\n                        self.single_latency(t, op_type, metric_name=\"service_time\"),\n"
+                "                        self.single_latency(t, op_type, metric_name=\"processing_time\"),\n")
+_THREE_CALLS_SPLIT = ("                        self.latency_stats(t, op_type),\n                        self.service_time_stats(t, op_type),\n                        self.processing_time_stats(t, op_type),\n")
+_THREE_DEFS = ("    def latency_stats(self, task, operation_type):\n        return self._percentiles_of(task, operation_type, \"latency\")\n\n"
+               "    def service_time_stats(self, task, operation_type):\n        return self._percentiles_of(task, operation_type, \"service_time\")\n\n"
+               "    def processing_time_stats(self, task, operation_type):\n        return self._percentiles_of(task, operation_type, \"processing_time\")\n\n"
+               "    def _percentiles_of(self, task, operation_type, metric_name):")
 
 VARIANTS = [
     V("sample type dropped at one query", "break", _M, "        mean = self.store.get_mean(metric_name, task=task_name, operation_type=operation_type, sample_type=SampleType.Normal)", "        mean = self.store.get_mean(metric_name, task=task_name, operation_type=operation_type)", "O8.1"),
@@ -2146,4 +2227,33 @@ VARIANTS = [
       "            results = {k: v for k, v in self.results.as_dict().items() if v}\n            d[\"results\"] = results", "O8.4"),
     [V("race timestamp written through a local without the conversion", "break", _M, "        d = {\n            \"rally-version\": self.rally_version,", "        timestamp = self.race_timestamp\n        d = {\n            \"rally-version\": self.rally_version,", "O8.4"),
      V("", "break", _M, "            \"race-timestamp\": time.to_iso8601(self.race_timestamp),\n            \"pipeline\"", "            \"race-timestamp\": timestamp,\n            \"pipeline\"")],
+    # ---- the feeds of the per-task record are evaluated for a representative task: what is passed (names, the task object) and where the query is written is all the same
+    [V("error-rate method takes the task object", "keep", _M, "                error_rate = self.error_rate(t, op_type)", "                error_rate = self.error_rate(task)"),
+     V("", "keep", _M, "    def error_rate(self, task_name, operation_type):\n        return self.store.get_error_rate(task=task_name, operation_type=operation_type, sample_type=SampleType.Normal)",
+       "    def error_rate(self, task):\n        return self.store.get_error_rate(task=task.name, operation_type=task.operation.type, sample_type=SampleType.Normal)")],
+    [V("error-rate method takes the task object and filters by the operation NAME", "break", _M, "                error_rate = self.error_rate(t, op_type)", "                error_rate = self.error_rate(task)", "O8.1"),
+     V("", "break", _M, "    def error_rate(self, task_name, operation_type):\n        return self.store.get_error_rate(task=task_name, operation_type=operation_type, sample_type=SampleType.Normal)",
+       "    def error_rate(self, task):\n        return self.store.get_error_rate(task=task.name, operation_type=task.operation.name, sample_type=SampleType.Normal)")],
+    [V("error-rate query written in place (one-line method inlined)", "keep", _M, "                error_rate = self.error_rate(t, op_type)",
+       "                error_rate = self.store.get_error_rate(task=t, operation_type=op_type, sample_type=SampleType.Normal)"),
+     V("", "keep", _M, "    def error_rate(self, task_name, operation_type):\n        return self.store.get_error_rate(task=task_name, operation_type=operation_type, sample_type=SampleType.Normal)\n\n", "")],
+    [V("error-rate query written in place without the sample type", "break", _M, "                error_rate = self.error_rate(t, op_type)",
+       "                error_rate = self.store.get_error_rate(task=t, operation_type=op_type)", "O8.1"),
+     V("", "break", _M, "    def error_rate(self, task_name, operation_type):\n        return self.store.get_error_rate(task=task_name, operation_type=operation_type, sample_type=SampleType.Normal)\n\n", "")],
+    V("task loop over enumerate()", "keep", _M, "            for task in tasks:\n                t = task.name", "            for _position, task in enumerate(tasks):\n                t = task.name"),
+    [V("one percentile method per time metric over a shared helper", "keep", _M, _THREE_CALLS, _THREE_CALLS_SPLIT),
+     V("", "keep", _M, "    def single_latency(self, task, operation_type, metric_name=\"latency\"):", _THREE_DEFS)],
+    [V("one percentile method per time metric: two of them exchanged at the call", "break", _M, _THREE_CALLS,
+       _THREE_CALLS_SPLIT.replace("self.latency_stats(", "self.TMP(").replace("self.service_time_stats(", "self.latency_stats(").replace("self.TMP(", "self.service_time_stats("), "O8.3"),
+     V("", "break", _M, "    def single_latency(self, task, operation_type, metric_name=\"latency\"):", _THREE_DEFS)],
+    [V("one percentile method per time metric: one of them asks for the wrong metric", "break", _M, _THREE_CALLS, _THREE_CALLS_SPLIT, "O8.3"),
+     V("", "break", _M, "    def single_latency(self, task, operation_type, metric_name=\"latency\"):", _THREE_DEFS.replace("operation_type, \"processing_time\")", "operation_type, \"service_time\")"))],
+    V("tasks taken off a work list in a while loop", "keep", _M, "            for task in tasks:\n                t = task.name",
+      "            pending = list(tasks)\n            while pending:\n                task = pending.pop(0)\n                t = task.name"),
+    V("summary median asked for as the 50th percentile", "keep", _M, "        median = self.store.get_median(metric_name, task=task_name, operation_type=operation_type, sample_type=SampleType.Normal)",
+      "        median = self.store.get_percentiles(metric_name, task=task_name, operation_type=operation_type, sample_type=SampleType.Normal, percentiles=[50]).get(50)"),
+    V("summary median asked for as the 90th percentile", "break", _M, "        median = self.store.get_median(metric_name, task=task_name, operation_type=operation_type, sample_type=SampleType.Normal)",
+      "        median = self.store.get_percentiles(metric_name, task=task_name, operation_type=operation_type, sample_type=SampleType.Normal, percentiles=[90]).get(90)", "O8.8"),
+    V("summary median as the 50th percentile of all sample types", "break", _M, "        median = self.store.get_median(metric_name, task=task_name, operation_type=operation_type, sample_type=SampleType.Normal)",
+      "        median = self.store.get_percentiles(metric_name, task=task_name, operation_type=operation_type, percentiles=[50]).get(50)", "O8.1"),
 ]
